@@ -101,6 +101,41 @@ def check_new_work_queued(ctx, f, s_p):
         ctx.ob(1, "K3", "every job built for arriving / failed work is put on the queue of its own priority in the same round", ok, f, fills[0], construct=f"for job in {J}: queue.append(job)", detail=d)
 
 
+def check_pool_break(ctx, num=4):
+    """priority-pool: the scan of a pool's queue is abandoned only when the pool is depleted.  Leaving the scan for any other reason (a job that
+    "does not fit right now") stalls the ready jobs queued behind it while the pool still has room, and lets the next, lower queue go first."""
+    from ..util import loop_env
+    P = ctx.P
+    f = sched.scheduler(P, "priority-pool")
+    g = cfg_of(f, subst_env=False)
+    jls = [n for n in own_nodes(f.node) if isinstance(n, ast.For) and isinstance(n.target, ast.Name)
+           and any(isinstance(x, ast.Call) and norm.call_name(x) == "Assignment" for x in ast.walk(n))]
+    jls = [n for n in jls if not any(m is not n and any(m is y for y in ast.walk(n)) for m in jls)]      # innermost
+    for jl in jls:
+        le = loop_env(jl)
+        for br in [n for n in ast.walk(jl) if isinstance(n, (ast.Break, ast.Return))]:
+            q = parent(br)
+            inner = False
+            while q is not None and q is not jl:
+                if isinstance(q, (ast.For, ast.While)):
+                    inner = True
+                q = parent(q)
+            if inner:
+                continue
+            fs = g.facts_at(br)
+
+            def depleted(a):
+                if a[0] == "cmp" and a[1] in ("==", "<=") and "0" in (a[2], a[3]):
+                    t = a[3] if a[2] == "0" else a[2]
+                    e = le.get(t)
+                    txt = norm.U(e) if e is not None else t
+                    return "avail" in txt
+                return False
+            ok = any(depleted(a) or (a[0] == "or" and all(depleted(k) for k in a[1])) for a in fs)
+            ctx.ob(num, "K2", "[priority-pool] the scan of a pool's queue stops early only when that pool has no free CPU or no free RAM left", ok, f, br,
+                   construct="early exit of the job loop", detail=f"facts at the exit: {sorted(norm.show(x) for x in fs)[:8]}")
+
+
 def check_retry_record(ctx, f, num=4):
     """A waiting job is sized - and, when the doubled size no longer fits, dropped - by the retry record attached to it.  The record of a job
     built for arriving work must be the one registered for the job's own operators: `table.get(<first operator of the job's ops>.id)`.
@@ -533,3 +568,5 @@ def run(ctx):
     from . import c09
     c09.check_container_ids(Renumber(ctx, {2: 7}), 2)
     check_retry_record(ctx, f, 4)
+    sched.ob_wrapper_passes_through(ctx, 3)      # "first container in arrival order": arrivals reach the policy in the tick and order in which they came
+    check_pool_break(ctx)
